@@ -167,6 +167,9 @@ bool Component::ComponentImpl::performTestWithHistory(History &history, const Co
 bool Component::doAddComponent(const ComponentPtr &component)
 {
     auto newParent = shared_from_this();
+    if (newParent == component) {
+        return false;
+    }
     bool hasParent = component->hasParent();
     if (hasParent) {
         if (hasAncestor(component)) {
@@ -177,8 +180,6 @@ bool Component::doAddComponent(const ComponentPtr &component)
             removeComponentFromEntity(parent, component);
         }
     } else if (hasAncestor(component)) {
-        return false;
-    } else if (newParent == component) {
         return false;
     }
     component->pFunc()->setParent(newParent);
